@@ -81,6 +81,10 @@ func (ctx *_OpContextType) asmSyntax(
 			}
 			return fmt.Sprintf("%s %s, %d, %d", asNameFn(as, asName), rName(arg.Rd), arg.Imm, ctx.regI(arg.Rs1))
 
+		case AECALL, AEBREAK:
+			// 没有操作数
+			return asNameFn(as, asName)
+
 		default:
 			panic("unreachable")
 		}
